@@ -10,9 +10,11 @@ open(os.path.join(W, 'ais_v.rs'), 'w').write(asm.text)
 mods = sys.argv[1:]
 cmd = ['verus', 'ais_v.rs', '--crate-type=lib', '--cfg', 'feature="std"', '--extern', 'nom=libnom.rlib', '--import', 'nom=nom.vir', '-L', '.',
        '--triggers-mode', 'silent', '--multiple-errors', '5', '--time']
+raw = False
 for m in mods:
-    if m.startswith('-') or m[0].isdigit():
+    if raw or m.startswith('-') or m[0].isdigit():
         cmd.append(m)
+        raw = m in ('--verify-only-module', '--verify-function', '--rlimit')
     else:
         cmd += ['--verify-module', m]
 t = time.time()
